@@ -144,6 +144,7 @@ def quadrature_regions(prog: Program) -> Dict[str, Tuple[Poly, Poly, object, obj
 def closed_forms(prog: Program) -> Dict[str, Tuple[Optional[EtaForm], ast.AST]]:
     u = prog.unit(f"{BC}:CustomSD.correlation_2d_integral")
     out = {}
+    del _HELPER_GUARDS[:]
     # the closed form is assigned to the variable the method returns
     ret_names = {r.value.id for r in walk_local(u.node) if isinstance(r, ast.Return)
                  and isinstance(r.value, ast.Name)}
@@ -165,6 +166,7 @@ def closed_forms(prog: Program) -> Dict[str, Tuple[Optional[EtaForm], ast.AST]]:
 
 
 _NON_AFFINE: Dict[str, List[str]] = {}
+_HELPER_GUARDS: List[Tuple[str, str]] = []
 
 
 def non_affine_eta_arguments(e: ast.AST, eta_name: str) -> List[str]:
@@ -189,8 +191,25 @@ def _inline_helpers(u: Unit, e: ast.AST, depth: int = 0) -> ast.AST:
         elif isinstance(st, ast.FunctionDef) and st is not u.node:
             body = [b for b in st.body if not (isinstance(b, ast.Expr)
                                                and isinstance(b.value, ast.Constant))]
+            params_ = [a.arg for a in st.args.args]
+            # leading shortcuts `if <param> <op> 0: return 0`: eta(0) = 0 holds (L5), so an
+            # equality shortcut changes nothing; any other comparison zeroes eta on a half line
+            while len(body) > 1 and isinstance(body[0], ast.If) and not body[0].orelse \
+                    and len(body[0].body) == 1 and isinstance(body[0].body[0], ast.Return) \
+                    and isinstance(body[0].body[0].value, ast.Constant) \
+                    and body[0].body[0].value.value in (0, 0.0, 0j) \
+                    and isinstance(body[0].test, ast.Compare) and len(body[0].test.ops) == 1:
+                t = body[0].test
+                sides = [t.left, t.comparators[0]]
+                is_p = [isinstance(x, ast.Name) and x.id in params_ for x in sides]
+                is_0 = [isinstance(x, ast.Constant) and x.value in (0, 0.0) for x in sides]
+                if not ((is_p[0] and is_0[1]) or (is_p[1] and is_0[0])):
+                    break
+                if not isinstance(t.ops[0], ast.Eq):
+                    _HELPER_GUARDS.append((st.name, norm(t)))
+                body = body[1:]
             if len(body) == 1 and isinstance(body[0], ast.Return) and body[0].value is not None:
-                helpers[st.name] = ([a.arg for a in st.args.args], body[0].value)
+                helpers[st.name] = (params_, body[0].value)
     if not helpers or depth > 3:
         return e
 
@@ -217,6 +236,11 @@ def _inline_helpers(u: Unit, e: ast.AST, depth: int = 0) -> ast.AST:
 
 
 def _l1_reason(bad_args: List[str], region: str, want) -> str:
+    if bad_args and "shortcut" in bad_args[0]:
+        return (f"eta is evaluated through {bad_args[0]}: the double antiderivative vanishes at 0 "
+                f"only - for negative arguments eta(-tau) = conj(eta(tau)), so cells that reach "
+                f"across the diagonal (time_1 < delta) lose a term and no longer equal the double "
+                f"integral of the correlation function over {region}")
     if bad_args:
         return (f"eta is evaluated at `{bad_args[0]}`, which is not the corner of the cell (an "
                 f"affine form of time_1, time_2, delta): a time that is rounded, clipped or "
@@ -253,7 +277,14 @@ def cell_closed_form_checks(prog: Program, regions=None, forms=None):
         else:
             raise AnalysisError(f"L1: region of shape {shape!r} ({g}, {h}) outside the "
                                 f"enumerated idioms")
-        out.append((shape, got, want, region, st, _NON_AFFINE.get(shape) or [], tri))
+        bad_args = list(_NON_AFFINE.get(shape) or [])
+        used = {x.func.id for x in ast.walk(st.value) if isinstance(x, ast.Call)
+                and isinstance(x.func, ast.Name)}
+        for (hname, test) in _HELPER_GUARDS:
+            if hname in used:
+                got = None
+                bad_args.append(f"{hname}(tau) with the shortcut `if {test}: return 0`")
+        out.append((shape, got, want, region, st, bad_args, tri))
     return out
 
 
